@@ -293,6 +293,14 @@ pub fn arena_call<R>(arena: u32, f: impl FnOnce() -> R) -> Result<R, Box<dyn std
     r
 }
 
+/// Run harness code whose panics are expected (the std mirror): the panic hook stays silent.
+pub fn quiet_call<R>(f: impl FnOnce() -> R) -> R {
+    let _ = CALL_DEPTH.try_with(|d| d.set(d.get() + 1));
+    let r = f();
+    let _ = CALL_DEPTH.try_with(|d| d.set(d.get() - 1));
+    r
+}
+
 // ---- run control (harness mode only) ------------------------------------------------------
 
 pub fn begin_run(placement: Placement) {
